@@ -5,7 +5,7 @@ verus! {
 //@ include prelude/std_assumed.rs
 //@ include prelude/ansi_term.rs
 //@ include prelude/style.rs
-//@ broadcast vax::vax_group
+//@ broadcast vax::vax_group axiom_ascii_suffix_boundary
 
 // Mirror of syntect::highlighting::{Style, Color} (plain data of the dependency; trusted copy).
 #[derive(Clone, Copy, PartialEq, Eq, Structural)]
@@ -35,6 +35,7 @@ pub open spec fn superimposed_style_spec(syntect_style: SyntectStyle, style: Sty
 }
 
 //@ fn src/paint.rs superimpose_style_sections::coalesce
+//@loop 1| invariant forall|p: (SyntectStyle, Style)| make_superimposed_style.requires((p,)),
 //@rewrite <<<let make_superimposed_style = |(syntect_style, style): (SyntectStyle, Style)| {>>> => <<<let make_superimposed_style = |p: (SyntectStyle, Style)| -> (r: Style) ensures /* @C15:superimposed.style.changes.only.the.foreground.and.only.when.asked */ r == superimposed_style_spec(p.0, p.1, true_color, null_syntect_style) { let (syntect_style, style) = p;>>>
 
 } // verus!
